@@ -23,9 +23,13 @@ def handle (line : String) : String :=
   | "pq" :: args => PQ.run args
   | "iso" :: args => Isolation.run args
   | "rx" :: args => Codec.runRx args
+  -- `cfail<j>` in the callback script: the consumer's context ends before its callback returns the error; the
+  -- rest of the response, already received, is consumed all the same: the same round as `fail<j>`
+  | "use" :: a :: b :: spec :: rest => Codec.runUse (a :: b :: spec.replace "cfail" "fail" :: rest)
   | "use" :: args => Codec.runUse args
   -- the same packets brought to the channel by the connection's reader goroutine: the same events
   | "rxr" :: args => Codec.runRx args
+  | "user" :: a :: b :: spec :: rest => Codec.runUse (a :: b :: spec.replace "cfail" "fail" :: rest)
   | "user" :: args => Codec.runUse args
   | "val" :: args => Value.run args
   | "cal" :: args => Value.runCal args
